@@ -1,6 +1,6 @@
 """Registry: property id -> scenarios, run counts per tier, claimed level.  MANIFEST.json is generated from this."""
 
-DST = 'deterministic simulation with fault injection'
+from checks_common import DST
 
 ENGINES = [
     {'name': 'simkit', 'path': 'simkit/',
@@ -57,6 +57,23 @@ CHECKS = {
     },
 }
 
+
+def _load_fragments():
+    # each world may contribute worlds/<name>/registry.py with CHECKS = {...} and ENGINE = {...}
+    import importlib
+    import os
+    here = os.path.dirname(os.path.abspath(__file__))
+    for d in sorted(os.listdir(os.path.join(here, 'worlds'))):
+        if os.path.exists(os.path.join(here, 'worlds', d, 'registry.py')):
+            m = importlib.import_module(f'worlds.{d}.registry')
+            for k, v in m.CHECKS.items():
+                assert k not in CHECKS, k
+                CHECKS[k] = v
+            if getattr(m, 'ENGINE', None):
+                ENGINES.append(m.ENGINE)
+
+
+_load_fragments()
 
 
 def _all_ids():
